@@ -29,7 +29,7 @@ let of_res r = match r with
 let out_fields o = match o with
   | OAdd (r, pr) -> [("ret", of_res r); ("probed", of_list of_peer pr)]
   | ORemove ok -> [("ret", JStr (if ok then "None" else "IndexError")); ("probed", JArr [])]
-let set_tab t = st := { s_tab = t; s_pm = !st.s_pm; s_now = !st.s_now }
+let set_tab t = st := { s_tab = t; s_pm = !st.s_pm; s_now = !st.s_now; s_pending = !st.s_pending }
 (* a table operation with an explicitly given environment *)
 let do_step o =
   let (t', x) = step !st_rp !st_own !st.s_tab o in
@@ -46,8 +46,9 @@ let do_sys o =
   let (s', x) = sys_step !st_rp !st_own !st o in
   st := s';
   match x with
-  | Some x -> JObj (out_fields x @ [("table", of_table s'.s_tab); ("facts", JObj fs)])
-  | None -> JNull
+  | Some x -> JObj (out_fields x @ [("table", of_table s'.s_tab); ("facts", JObj fs);
+                                    ("pending", of_list of_peer s'.s_pending)])
+  | None -> JObj [("pending", of_list of_peer s'.s_pending)]
 let of_tri g = match g with GTrue -> JStr "True" | GFalse -> JStr "False" | GNone -> JStr "None"
 
 let () = serve (fun fn req ->
@@ -63,6 +64,11 @@ let () = serve (fun fn req ->
   | "requested" -> do_sys (SRequested (jkey req))
   | "sadd" -> do_sys (SAdd (jpeer req, probe_of req))
   | "sadd_real" -> do_sys (SAddReal (jpeer req, probe_of req, jn (jfield req "wait")))
+  | "ping" ->
+      let o = match jstr (jfield req "outcome") with "reply" -> PReply | "dead" -> PDead | _ -> PLocalFail in
+      do_sys (SPing (jpeer req, o, jn (jfield req "wait")))
+  | "report" -> do_sys (SReport (jpeer req))
+  | "drain_pick" -> do_sys (SDrainPick (jpeer req, probe_of req, jn (jfield req "wait")))
   | "pm_query" ->
       let k = jkey req in
       JObj [("good", of_tri (triple_is_good !st.s_pm !st.s_now k));
